@@ -94,8 +94,7 @@ func (e *EventStreaming) CreateEventStream(name string, count uint64) *EventStre
 	}
 	local := make(chan *si.EventRecord, defaultChannelBufSize)
 	stop := make(chan struct{})
-	e.createEventStreamInternal(stream, local, consumer, stop, name)
-	history := e.buffer.GetRecentEvents(count)
+	history := e.createEventStreamInternal(stream, local, consumer, stop, name, count)
 
 	go func(consumer chan<- *si.EventRecord, local <-chan *si.EventRecord, stop <-chan struct{}) {
 		// Store the refs of historical events; it's possible that some events are added to the
@@ -137,7 +136,8 @@ func (e *EventStreaming) createEventStreamInternal(stream *EventStream,
 	local chan *si.EventRecord,
 	consumer chan *si.EventRecord,
 	stop chan struct{},
-	name string) {
+	name string,
+	count uint64) []*si.EventRecord {
 	// stuff that needs locking
 	e.Lock()
 	defer e.Unlock()
@@ -149,6 +149,10 @@ func (e *EventStreaming) createEventStreamInternal(stream *EventStream,
 		name:      name,
 		createdAt: time.Now(),
 	}
+	// The history must be read while publishing is blocked. Events published after the registration and before the
+	// history was read ended up in "local" in front of the history they are older than: with a short history they
+	// were delivered after it, out of order and followed by duplicates.
+	return e.buffer.GetRecentEvents(count)
 }
 
 // RemoveEventStream stops the streaming for a given consumer. Must be called to avoid resource leaks.
